@@ -959,6 +959,21 @@ fn process_write_batch(
     #[cfg(feoxdb_verif)]
     crate::verif::yield_point("wb.after_queue_deletes");
 
+    if prepared_writes.is_empty() {
+        return BatchOutcome {
+            result: match first_error {
+                Some(error) => Err(error),
+                None => Ok(()),
+            },
+            retries: retry_entries,
+        };
+    }
+
+    // The device stays locked from allocation until the extents are written. Another
+    // batch must not be written behind an extent that is reserved here but still holds an
+    // old retirement marker on disk: that marker's block count would span the new record,
+    // and recovery would skip it or retire it again.
+    let mut disk_guard = disk_io.write();
     if !prepared_writes.is_empty() {
         let mut free_space_guard = free_space.write();
         for index in 0..prepared_writes.len() {
@@ -998,7 +1013,6 @@ fn process_write_batch(
     crate::verif::yield_point("wb.after_alloc");
 
     if !batch_writes.is_empty() {
-        let mut disk_guard = disk_io.write();
         for write in &prepared_writes {
             mark_reservation_dirty(&write.entry);
         }
